@@ -220,7 +220,14 @@ def _table_case(cells, ncols, header, style_i, width, indent, aligns, ansi=False
     all_rows = ([["H%d" % c for c in range(ncols)]] if header else []) + rows
     natural = sum(max(len(_visible(r[c])) for r in all_rows) for c in range(ncols))
     if kf.excluded("C14-tagged-cell-wrapped", natural > available and any(TAGS.search(c) for r in rows for c in r)):
-        return True
+        # known finding: the TEXT of a wrapped tagged cell may be damaged.  Everything else still holds in this region and stays checked:
+        # rendering succeeds or fails only with the other known finding, and no line is wider than the terminal
+        try:
+            t.render(io, indent)
+        except ValueError as e:
+            return "invalid width" in str(e)
+        out_kf = SGR_.sub("", io.fetch_output())
+        return all(len(l) <= width for l in out_kf.split("\n")) and ([list(r) for r in t._rows], list(t._header_row)) == snapshot
     try:
         t.render(io, indent)
     except ValueError as e:
@@ -246,6 +253,16 @@ def _table_case(cells, ncols, header, style_i, width, indent, aligns, ansi=False
         raise
     if ([list(r) for r in t._rows], list(t._header_row)) != snapshot:
         return False                                    # rendering does not modify the table
+    if header:
+        # the table can be changed between two renderings: the second one shows the table as it is then
+        t.set_header_row(["N%d" % c for c in range(ncols)])
+        io_again = BufferedIO()
+        io_again.set_terminal_dimensions(Rectangle(width, 20))
+        t.render(io_again, indent)
+        again = io_again.fetch_output()
+        if "N0" not in again or "H0" in again:
+            return False
+        t.set_header_row(["H%d" % c for c in range(ncols)])
     out = io.fetch_output()
     if ansi:
         if "\x1b[" not in out and any(TAGS.search(c) for c in cells):
